@@ -102,6 +102,7 @@ def evaluate(mod, case, stats: Stats, findings: Findings, keep_sample: bool = Tr
 def shard_main(pid, tier, seed_value, shard, n_examples, deadline_s, conn) -> None:
     """One shard = one process running the property under its own Hypothesis seed."""
     try:
+        sys.stdout = open(os.devnull, "w")  # the package prints; only the parent reports
         bootstrap()
         import hypothesis
         from hypothesis import HealthCheck, Phase, given, settings
@@ -209,14 +210,19 @@ def run_property(pid: str, tier: str, seed_value: int, shards: int = None, examp
     master = Stats()
     violations = []  # (signature, message, case, replay_path or None)
 
-    # 1. corpus
-    for signature, message, case, path in replay_corpus(mod, master, findings):
+    # 1. corpus (the package prints: silence it while the code under test runs)
+    import contextlib
+
+    with open(os.devnull, "w") as devnull, contextlib.redirect_stdout(devnull):
+        corpus_found = replay_corpus(mod, master, findings)
+    for signature, message, case, path in corpus_found:
         violations.append((signature, message, case, path))
 
     # 2. optional property-specific deterministic part (bounded exhaustive enumeration ...)
     extra_cov = {}
     if hasattr(mod, "extra_run"):
-        extra = mod.extra_run(tier, seed_value, findings)
+        with open(os.devnull, "w") as devnull, contextlib.redirect_stdout(devnull):
+            extra = mod.extra_run(tier, seed_value, findings)
         master.evaluations += extra.get("evaluations", 0)
         master.nontrivial |= set(extra.get("nontrivial", []))
         for label, count in extra.get("classes", {}).items():
@@ -335,7 +341,10 @@ def run_replay(path: str) -> int:
         pid = os.path.basename(os.path.dirname(os.path.abspath(path)))
     mod = load_prop(pid)
     findings = Findings()
-    out = mod.check_case(doc["case"] if "case" in doc else doc)
+    import contextlib
+
+    with open(os.devnull, "w") as devnull, contextlib.redirect_stdout(devnull):
+        out = mod.check_case(doc["case"] if "case" in doc else doc)
     status = 0
     for signature, message in out.all_violations():
         if findings.match_open(pid, signature):
